@@ -930,6 +930,8 @@ class Message:
             encrypted_payloads=[],
             crypto=crypto
         )
+        # the octets as they came off the wire (what the peer's AUTH payload covers, RFC 7296 section 2.15)
+        message.received_data = bytes(data)
 
         if not header_only:
             # parse unencrypted payloads
